@@ -11,6 +11,7 @@ for which float inputs the closed form yields NaN/inf, additivity as a numeric s
 import ast
 from svtstatic import poly
 from svtstatic.values import ExtRef
+from svtstatic.interp import Env
 from .common import *
 
 PROPERTY = 'C06'
@@ -172,6 +173,12 @@ def run(ctx):
             del calls[:]
             segs = [it.construct('path.Line', Rat.csym('A%d' % k), Rat.csym('B%d' % k)) for k in range(3)]
             p = it.construct('path.Path', *segs)
+            # the length table is there and fresh (whatever helper Path.length uses to make sure of that has nothing to measure)
+            g = it.model.module('path').globals
+            p.attrs['_length'] = Rat.sym('LTOT')
+            p.attrs['_lengths'] = [Rat.sym('fr%d' % k) for k in range(3)]
+            p.attrs['_length_tol'] = tuple(it.eval(g[nm], Env(module=it.model.module('path'))) if nm in g else Rat.const(0)
+                                           for nm in ('LENGTH_ERROR', 'LENGTH_MIN_DEPTH'))
             r = it.call_method(p, 'length', Rat.sym('TT0'), Rat.sym('TT1'))
             return r, list(calls), segs
 
@@ -193,8 +200,7 @@ def run(ctx):
                 return False, 'pieces measured: %s; expected %s' % (sorted(map(key, got)), sorted(map(key, exp)))
             return decide_equal(r, sum((Rat.sym('LEN%d' % i) for i in range(len(calls))), Rat.const(0)))
         ob('R06.4').run(fpl, 'Path.length(T0,T1): T0 on segment %d, T1 on segment %d' % (i0, i1), th4, judge4,
-                        opts={'call_hooks': {'path.Line.length': len_hook, 'path.Path.T2t': t2t_hook,
-                                             'path.Path._calc_lengths': lambda it, a, k: None},
+                        opts={'call_hooks': {'path.Line.length': len_hook, 'path.Path.T2t': t2t_hook},
                               'presign': [(Rat.sym('TT0'), '+'), (Rat.sym('TT1') - 1, '-')]})
     fl = mdl.func('path.Line.length')
     P = cpoints(2)
@@ -227,7 +233,7 @@ def _quadratic(ctx, mdl):
         return dict(s=to_rat(s), tags=tags, nan=nan, deg=deg, s1=path_sign(it, T1 - tstar), s0=path_sign(it, tstar - T0),
                     deriv=it.call_method(q, 'derivative', TAU))
     try:
-        paths = explore(ctx.model, th, {'abstract_values': {fq.qualname: vals},
+        paths = explore(ctx.model, th, {'abstract_values': {'*': vals},
                                         'presign': [(T0 - 1, '-'), (T1, '+')]})
     except Undecidable as e:
         ctx.undecided('R06.5', fq.qualname, 'closed form', str(e), where=where(fq))
